@@ -53,7 +53,9 @@ where
         }
         for (nbr_cost, nbr) in next.drain(..) {
             let off = usize::from(nbr_cost);
-            todo.resize(todo.len() + off + 1, IndexMap::new());
+            if off >= todo.len() {
+                todo.resize(off + 1, IndexMap::new());
+            }
             match todo[off].entry(nbr.clone()) {
                 Entry::Vacant(e) => {
                     e.insert(nbr);
